@@ -139,8 +139,8 @@ def gen(r):
     feed = []
     i = 0
     while i < len(stream):
-        how = r.choices(['add', 'update-iter', 'update-list', 'update-map', 'update-kw', 'update-fails'],
-                        [50, 10, 10, 12, 6, 2] if style != 'quiet-window' else [80, 10, 10, 0, 0, 0])[0]
+        how = r.choices(['add', 'update-iter', 'update-list', 'update-map', 'update-kw', 'update-fails', 'update-reentrant'],
+                        [50, 10, 10, 12, 6, 2, 4] if style != 'quiet-window' else [80, 10, 10, 0, 0, 0, 0])[0]
         if how == 'update-fails':
             m = r.randint(0, 6)
             j = r.randint(0, m)
@@ -149,7 +149,7 @@ def gen(r):
         elif how == 'add':
             feed.append(['add', stream[i]])
             i += 1
-        elif how in ('update-iter', 'update-list'):
+        elif how in ('update-iter', 'update-list', 'update-reentrant'):
             m = r.randint(0, 12)
             feed.append([how, stream[i:i + m]])
             i += m
@@ -305,6 +305,20 @@ def check(c, st):
                 total += len(f[1])
                 for k in f[1]:
                     ref_add(k)
+            elif how == 'update-reentrant':
+                # the iterable handed to update() is a generator that itself counts something on the same counter
+                # before each key it yields (a tokenizer tallying its own bookkeeping events): all are additions
+                def feeding(keys):
+                    for k in keys:
+                        tc.add('side-' + str(k))
+                        yield k
+                tc.update(feeding(list(f[1])))
+                for k in f[1]:
+                    exact['side-' + str(k)] += 1
+                    exact[k] += 1
+                    ref_add('side-' + str(k))
+                    ref_add(k)
+                total += 2 * len(f[1])
             elif how == 'update-list':
                 tc.update(list(f[1]))
                 exact.update(f[1])
